@@ -93,12 +93,13 @@ func (d dissecting) Summarize(entry *api.Entry) *api.BaseEntry {
 		}
 		topics := _topics.([]interface{})
 		for i, topic := range topics {
-			summary += fmt.Sprintf("%s, ", topic.(map[string]interface{})["name"].(string))
-			summaryQuery += fmt.Sprintf(`request.payload.topics[%d].name == "%s" and`, i, summary)
+			name := topic.(map[string]interface{})["name"].(string)
+			summary += fmt.Sprintf("%s, ", name)
+			summaryQuery += fmt.Sprintf(`request.payload.topics[%d].name == "%s" and `, i, name)
 		}
 		if len(summary) > 0 {
 			summary = summary[:len(summary)-2]
-			summaryQuery = summaryQuery[:len(summaryQuery)-4]
+			summaryQuery = summaryQuery[:len(summaryQuery)-5]
 		}
 	case ApiVersions:
 		summary = entry.Request["clientID"].(string)
@@ -110,12 +111,13 @@ func (d dissecting) Summarize(entry *api.Entry) *api.BaseEntry {
 		}
 		topics := _topics.([]interface{})
 		for i, topic := range topics {
-			summary += fmt.Sprintf("%s, ", topic.(map[string]interface{})["topic"].(string))
-			summaryQuery += fmt.Sprintf(`request.payload.topicData[%d].topic == "%s" and`, i, summary)
+			name := topic.(map[string]interface{})["topic"].(string)
+			summary += fmt.Sprintf("%s, ", name)
+			summaryQuery += fmt.Sprintf(`request.payload.topicData[%d].topic == "%s" and `, i, name)
 		}
 		if len(summary) > 0 {
 			summary = summary[:len(summary)-2]
-			summaryQuery = summaryQuery[:len(summaryQuery)-4]
+			summaryQuery = summaryQuery[:len(summaryQuery)-5]
 		}
 	case Fetch:
 		_topics := entry.Request["payload"].(map[string]interface{})["topics"]
@@ -124,12 +126,13 @@ func (d dissecting) Summarize(entry *api.Entry) *api.BaseEntry {
 		}
 		topics := _topics.([]interface{})
 		for i, topic := range topics {
-			summary += fmt.Sprintf("%s, ", topic.(map[string]interface{})["topic"].(string))
-			summaryQuery += fmt.Sprintf(`request.payload.topics[%d].topic == "%s" and`, i, summary)
+			name := topic.(map[string]interface{})["topic"].(string)
+			summary += fmt.Sprintf("%s, ", name)
+			summaryQuery += fmt.Sprintf(`request.payload.topics[%d].topic == "%s" and `, i, name)
 		}
 		if len(summary) > 0 {
 			summary = summary[:len(summary)-2]
-			summaryQuery = summaryQuery[:len(summaryQuery)-4]
+			summaryQuery = summaryQuery[:len(summaryQuery)-5]
 		}
 	case ListOffsets:
 		_topics := entry.Request["payload"].(map[string]interface{})["topics"]
@@ -138,12 +141,13 @@ func (d dissecting) Summarize(entry *api.Entry) *api.BaseEntry {
 		}
 		topics := _topics.([]interface{})
 		for i, topic := range topics {
-			summary += fmt.Sprintf("%s, ", topic.(map[string]interface{})["name"].(string))
-			summaryQuery += fmt.Sprintf(`request.payload.topics[%d].name == "%s" and`, i, summary)
+			name := topic.(map[string]interface{})["name"].(string)
+			summary += fmt.Sprintf("%s, ", name)
+			summaryQuery += fmt.Sprintf(`request.payload.topics[%d].name == "%s" and `, i, name)
 		}
 		if len(summary) > 0 {
 			summary = summary[:len(summary)-2]
-			summaryQuery = summaryQuery[:len(summaryQuery)-4]
+			summaryQuery = summaryQuery[:len(summaryQuery)-5]
 		}
 	case CreateTopics:
 		_topics := entry.Request["payload"].(map[string]interface{})["topics"]
@@ -152,12 +156,13 @@ func (d dissecting) Summarize(entry *api.Entry) *api.BaseEntry {
 		}
 		topics := _topics.([]interface{})
 		for i, topic := range topics {
-			summary += fmt.Sprintf("%s, ", topic.(map[string]interface{})["name"].(string))
-			summaryQuery += fmt.Sprintf(`request.payload.topics[%d].name == "%s" and`, i, summary)
+			name := topic.(map[string]interface{})["name"].(string)
+			summary += fmt.Sprintf("%s, ", name)
+			summaryQuery += fmt.Sprintf(`request.payload.topics[%d].name == "%s" and `, i, name)
 		}
 		if len(summary) > 0 {
 			summary = summary[:len(summary)-2]
-			summaryQuery = summaryQuery[:len(summaryQuery)-4]
+			summaryQuery = summaryQuery[:len(summaryQuery)-5]
 		}
 	case DeleteTopics:
 		if entry.Request["topicNames"] == nil {
